@@ -57,6 +57,8 @@ func verifProducerSym() *Producer {
 // enabled by ATTR / EV / LK: 0..1 span attribute, 0..1 event with 0..1 attribute, 0..1 link with 0..1 attribute.
 func VerifHarness_C01_rt_multi() {
 	p, c := verifProducer(), verifConsumer()
+	verifAhead = rt.Param("AHEAD") == 1
+	defer verifFlushAhead()
 	if rt.Param("OPT") == 1 {
 		p = verifProducerSym()
 	}
@@ -98,6 +100,8 @@ func VerifHarness_C01_rt_multi() {
 // 0..1 attribute (fixed key, symbolic one-byte value) and a body that is absent or a one-byte string.
 func VerifHarness_C02_rt_multi() {
 	p, c := verifProducer(), verifConsumer()
+	verifAhead = rt.Param("AHEAD") == 1
+	defer verifFlushAhead()
 	for b := 0; b < rt.Param("BATCHES"); b++ {
 		ld := plog.NewLogs()
 		sl := ld.ResourceLogs().AppendEmpty().ScopeLogs().AppendEmpty()
@@ -119,6 +123,8 @@ func VerifHarness_C02_rt_multi() {
 // double and which carries 0..1 filtered attribute.
 func VerifHarness_C03_rt_multi() {
 	p, c := verifProducer(), verifConsumer()
+	verifAhead = rt.Param("AHEAD") == 1
+	defer verifFlushAhead()
 	for b := 0; b < rt.Param("BATCHES"); b++ {
 		md := pmetric.NewMetrics()
 		m := md.ResourceMetrics().AppendEmpty().ScopeMetrics().AppendEmpty().Metrics().AppendEmpty()
@@ -145,5 +151,65 @@ func VerifHarness_C03_rt_multi() {
 			}
 		}
 		verifRoundTripMetrics(p, c, md, "C03.rt")
+	}
+}
+
+// ---- grouping shapes ----
+// SLOTS (resource, scope, item) triples; per slot a symbolic choice of resource (A or B, distinguished by
+// an attribute) and of scope (X with attribute a=1, or Y with attribute b=2): the same scope under different
+// resources, scopes re-appearing after another scope, resources split over several container entries — every
+// grouping/regrouping outcome of the optimizers and of the decoders. Items carry concrete unique ids.
+
+func verifShapeResource(res pcommon.Resource, tag string) {
+	if rt.Bool(tag + ".isB") {
+		res.Attributes().PutStr("service", "B")
+	} else {
+		res.Attributes().PutStr("service", "A")
+	}
+}
+
+func verifShapeScope(sc pcommon.InstrumentationScope, tag string) {
+	sc.SetVersion("1.0")
+	if rt.Bool(tag + ".isY") {
+		sc.SetName("Y")
+		sc.Attributes().PutInt("b", 2)
+	} else {
+		sc.SetName("X")
+		sc.Attributes().PutInt("a", 1)
+	}
+}
+
+func VerifHarness_C02_rt_shape() {
+	p, c := verifProducer(), verifConsumer()
+	for b := 0; b < rt.Param("BATCHES"); b++ {
+		ld := plog.NewLogs()
+		for s := 0; s < rt.Param("SLOTS"); s++ {
+			rl := ld.ResourceLogs().AppendEmpty()
+			verifShapeResource(rl.Resource(), "res")
+			sl := rl.ScopeLogs().AppendEmpty()
+			verifShapeScope(sl.Scope(), "scope")
+			lr := sl.LogRecords().AppendEmpty()
+			lr.SetSpanID(pcommon.SpanID{byte(b + 1), byte(s + 1)})
+			lr.SetTimestamp(pcommon.Timestamp(100 + s))
+		}
+		verifRoundTripLogs(p, c, ld, "C02.rt")
+	}
+}
+
+func VerifHarness_C01_rt_shape() {
+	p, c := verifProducer(), verifConsumer()
+	for b := 0; b < rt.Param("BATCHES"); b++ {
+		td := ptrace.NewTraces()
+		for s := 0; s < rt.Param("SLOTS"); s++ {
+			rs := td.ResourceSpans().AppendEmpty()
+			verifShapeResource(rs.Resource(), "res")
+			ss := rs.ScopeSpans().AppendEmpty()
+			verifShapeScope(ss.Scope(), "scope")
+			sp := ss.Spans().AppendEmpty()
+			sp.SetSpanID(pcommon.SpanID{byte(b + 1), byte(s + 1)})
+			sp.SetTraceID(pcommon.TraceID{1})
+			sp.SetName("span")
+		}
+		verifRoundTrip(p, c, td, "C01.rt")
 	}
 }
